@@ -40,8 +40,48 @@ def _owner_paths(prog, R):
                 continue
             for f in rec['fields']:
                 if not f['static'] and _type_owns_objects(prog, f['type']):
+                    if _emptied_before_store(prog, R, m, f['name']):
+                        continue        # a parking place for storage only: what it holds refers to nothing (premise checked)
                     out.append((m, f['name']))
     return out
+
+
+def _emptied_before_store(prog, R, m, sub):
+    """every element appended to container member m has its sub-member `sub` cleared first (`x->sub.clear(); m.emplace_back(x);` with
+    the clear dominating the append), and m's elements are not reached for writing anywhere else: the elements then own no
+    object, so the member is not a marking root"""
+    sites = 0
+    for f in [x for x in R.ev_methods() if x.body] + [l for x in R.ev_methods() for l in getattr(x, 'lambdas', [])]:
+        if not f.body:
+            continue
+        g = prog.cfg(f)
+        for c in g.calls(lambda e: SX.append_target(e) is not None and SX.is_this_member(SX.strip(SX.append_target(e)), m)):
+            sites += 1
+            args = [SX.strip(a) for a in SX.real_args(c.e)]
+            if len(args) != 1 or not (SX.is_node(args[0]) and args[0].get('k') == 'ref'):
+                return False
+            xid = args[0].get('id')
+            clears = [k for k in g.calls(lambda e: e['k'] == 'mcall' and SX.short(e.get('callee', '')) == 'clear' and SX.is_node(SX.strip(e.get('obj'))) and
+                                         SX.strip(e['obj']).get('k') == 'member' and SX.strip(e['obj']).get('name') == sub and
+                                         any(y.get('k') == 'ref' and y.get('id') == xid for y in SX.walk(SX.strip(e['obj']).get('base'))))]
+            if not clears or not any(g.dominates(k, c) and not _writes_sub_between(g, k, c, xid, sub) for k in clears):
+                return False
+        # no other access path to the elements of m (subscripts, iteration) outside the destructor's clear()
+        for n in SX.walk(f.body, into_lambdas=False):
+            if n['k'] in ('index', 'forrange') and SX.is_this_member(SX.strip(n.get('base') or n.get('range')), m):
+                return False
+    return sites > 0
+
+
+def _writes_sub_between(g, a, b, xid, sub):
+    mid = g.reachable([a], avoid=[b]) & g.reachable([b], forward=False, avoid=[a])
+    for i in mid:
+        n = g.nodes[i]
+        if n.kind in ('assign', 'call') and SX.is_node(n.e):
+            for y in SX.walk(n.e):
+                if y.get('k') == 'member' and y.get('name') == sub and any(z.get('k') == 'ref' and z.get('id') == xid for z in SX.walk(y.get('base'))):
+                    return True
+    return False
 
 
 def _value_record(prog):
